@@ -7,6 +7,10 @@ BASELINE_OFF = ("cd /repo && cargo nextest run --workspace --no-fail-fast --test
 
 # id -> (level, technique, design_ref, text, note)
 CHECKS = {
+ "C16": ("exploration", "full-product enumeration of request classes x configurations executed under a capturing TRACE subscriber, plus renderings of every credential-bearing public value; byte search for the secret in 8 spellings",
+         "DESIGN §4 C16",
+         "Every authentication path (accepted and each rejection path, incl. forms and chunk-signed uploads with mid-stream failures) under every relevant service configuration is executed with a thread-local subscriber that renders all events and span fields at TRACE; trace output, response head/body and backend-visible request are searched, as are Debug/serde renderings of SecretKey, Credentials, SimpleAuth and S3Request<Input> for all 96 operations.",
+         "only formatting sites on enumerated paths are covered; derived key material is out of scope"),
  "C15": ("exploration", "exhaustive enumeration of event sequences up to a length bound and of value axes, emitted through the real S3Service::call and decoded by three independent decoders",
          "DESIGN §4 C15",
          "All sequences of length <=3 (thorough 4) over the five event kinds and two error kinds, plus payload sizes 0..1 MiB (3 MiB), Stats/Progress extremes and error messages up to the header limit, each serialised by the real encoder behind a scripted backend and decoded by an own frame reader with an own CRC-32, by aws-smithy-eventstream's MessageFrameDecoder and by aws-sdk-s3's event receiver; events, order, headers and payload bytes are compared.",
